@@ -4,4 +4,4 @@ P="$1"; shift
 cd /repo || exit 2
 git apply "$P" || { echo "PATCH DOES NOT APPLY"; exit 2; }
 for c in "$@"; do (cd /verif && ./check "$c" 2>&1 | grep -E "violated|VIOLATION|rule instances|KNOWN" | cut -c1-260 | head -${TRY_LINES:-8}); done
-git -C /repo checkout -- . 
+git -C /repo checkout -- . && git -C /repo clean -fdq 
